@@ -114,6 +114,16 @@ service Svc extends Base {
     D.append(doc("q_default_td_enum", "enum E { A = 1, B = 2 }\ntypedef E TE\nstruct Q { 1: TE e = E.B }\n", shape="default-enum-through-typedef"))
     D.append(doc("q_uuid_key", "struct Q { 1: set<uuid> s, 2: map<uuid, i32> m }\n", shape="uuid-as-set-element-or-key", quarantine="C14-uuid-key-by-reference"))
     D.append(doc("q_keep_struct_literal", "struct In { 1: i32 a = 1 }\nconst In CI = {\"a\": 2}\nstruct Q { 1: In i = {\"a\": 3} }\n", shape="struct-literal", quarantine="C14-struct-literal-misses-unknown-fields"))
+    # names the emitted code itself uses
+    D.append(doc("shadow_std_types", "struct Result { 1: i32 a }\nstruct Option { 1: i32 a }\nstruct String { 1: i32 a }\nstruct Vec { 1: i32 a }\nstruct Box { 1: i32 a }\n"
+                 "struct Arc { 1: i32 a }\nstruct H { 1: Result r, 2: optional Option o, 3: list<String> ss, 4: map<string, Vec> vs, 5: optional H next, 6: Box b, 7: Arc c, 8: string txt, 9: list<string> l }\n",
+                 shape="types-named-like-std"))
+    D.append(doc("shadow_variants", "enum Maybe { Some = 1, None = 2, Ok = 3, Err = 4, Default = 5 }\nstruct H { 1: Maybe m = Maybe.None, 2: optional Maybe o }\nunion U { 1: i32 Ok, 2: string Err, 3: H Some }\n",
+                 shape="variants-named-like-prelude"))
+    D.append(doc("special_fields", "struct F { 1: i32 default, 2: i32 new, 3: i32 pilota, 4: i32 __protocol, 5: i32 protocol, 6: i32 ret, 7: i32 value, 8: i32 field_ident, 9: i32 err, 10: optional i32 size, 11: i32 encode, 12: i32 decode }\n",
+                 shape="fields-named-like-locals"))
+    D.append(doc("special_methods", "struct R { 1: i32 a }\nservice S { R new(1: R default), void default(1: i32 new), R encode(1: R decode), void size() }\n", shape="methods-named-like-trait-items"))
+    D.append(doc("typedef_message", "typedef i32 Message\ntypedef string Default\nstruct H { 1: Message m, 2: Default d }\n", shape="typedefs-named-like-traits"))
     D.append(doc("q_type_named_t", "struct T { 1: i32 a }\nstruct H { 1: T t, 2: list<T> ts }\n", shape="type-named-T", quarantine="C14-type-named-like-generic-parameter"))
     D.append(doc("q_empty_enum", "enum Err {\n}\nstruct Q { 1: Err e }\n", shape="empty-enum", quarantine=None))
     D[-1]["outside_grammar"] = True   # G_thrift requires at least one enum value
